@@ -261,7 +261,7 @@ def finalize_skeleton(ctx, F, r):
     rank = lambda d: ("bin", "Sub", ("bin", "Div", NB, C(d)), C(1))
     sel1 = ("call", "core::slice::<impl [T]>::select_nth_unstable", (("ref", V("copy")), rank(2)))
     q2 = ("load", ("deref", ("field", sel1, 1)))
-    sel = lambda part: ("call", "core::slice::<impl [T]>::select_nth_unstable", (("ref", ("deref", ("field", sel1, part))), rank(4)))
+    sel = lambda part: ("call", "core::slice::<impl [T]>::select_nth_unstable", (("field", sel1, part), rank(4)))
     q1 = ("load", ("deref", ("field", sel(0), 1)))
     q3 = ("load", ("deref", ("field", sel(2), 1)))
     # find a path where quartiles are not the dummy constants
@@ -328,7 +328,7 @@ def finalize_skeleton(ctx, F, r):
                cfg=F.key, where=b.where())
         if m is not None:
             lenx = m["len"]
-            want = ("call", "core::option::Option::<T>::unwrap_or", (("call", V("pl"), (("ref", ("deref", P(1))),)), C(0xFFFFFFFF)))
+            want = ("call", "core::option::Option::<T>::unwrap_or", (("call", V("pl"), (P(1),)), C(0xFFFFFFFF)))
             mm = match(want, lenx)
             ctx.ob(r, ("finalize", "length-source"), mm is not None and mm["pl"].endswith("processed_len"),
                    "length fed to LengthEncoding::new is %s; reference processed_len().unwrap_or(u32::MAX)" % sym.fmt(lenx), cfg=F.key, trivial=True)
@@ -442,7 +442,7 @@ def finalize_length_source(ctx, F, r):
         ctx.missing(r, "Ok path in finalize_with_options", cfg=F.key)
         return
     want_len = ("call", "core::option::Option::<T>::unwrap", (("call", "length::FuzzyHashLengthEncoding::new",
-                (("call", "core::option::Option::<T>::unwrap_or", (("call", V("pl"), (("ref", ("deref", P(1))),)), C(0xFFFFFFFF))),)),))
+                (("call", "core::option::Option::<T>::unwrap_or", (("call", V("pl"), (P(1),)), C(0xFFFFFFFF))),)),))
     bad = []
     for p in oks:
         v = n(p["res"][1])
